@@ -766,4 +766,36 @@ theorem auto_step_texts (s : S) (op : Op) (ha : s.auto = true) (hd : s.dirty = f
     | (simp [autoCommit, ha, commit, bootstrap_idempotent]; done)
     | exact ⟨hfix, trivial⟩
 
+/-! ## the list primitives commute with `List.map` (texts of a list of items) -/
+
+theorem pyInsert_map (f : α → β) (l : List α) (k : Int) (x : α) :
+    (pyInsert l k x).map f = pyInsert (l.map f) k (f x) := by
+  simp [pyInsert_eq, List.map_take, List.map_drop]
+
+theorem map_eraseIdx' (f : α → β) (l : List α) (i : Nat) :
+    (l.eraseIdx i).map f = (l.map f).eraseIdx i := by
+  induction l generalizing i with
+  | nil => rfl
+  | cons a as ih => cases i <;> simp [List.eraseIdx, ih]
+
+theorem pyPop_map (f : α → β) (l : List α) (k : Int) :
+    (pyPop l k).map (List.map f) = pyPop (l.map f) k := by
+  unfold pyPop
+  simp only [List.length_map]
+  split <;> split <;> simp [map_eraseIdx']
+
+theorem insertAtMatches_map (f : α → β) (after : Bool) (x : α) (l : List α) (row : List Bool) :
+    (insertAtMatches after x l row).map f = insertAtMatches after (f x) (l.map f) row := by
+  induction l generalizing row with
+  | nil => simp [insertAtMatches]
+  | cons a as ih =>
+    cases row with
+    | nil => simp [insertAtMatches]
+    | cons b bs => cases b <;> cases after <;> simp [insertAtMatches, ih]
+
+theorem eraseAll_map (f : α → β) (l : List α) (idxs : List Nat) :
+    (eraseAll l idxs).map f = eraseAll (l.map f) idxs := by
+  rw [eraseAll_eq_filter, eraseAll_eq_filter, List.zipIdx_map, List.filter_map, List.map_map, List.map_map]
+  rfl
+
 end Ccp.Edit
